@@ -188,17 +188,34 @@ func violationKey(r *Rec, clause, name string) string {
 		sig := detail
 		switch r.Outcome {
 		case "hang", "fatal":
-			// "<what> | inner{a,b,c}": the smallest function among the innermost
-			// frames does not depend on where the stack ended / the signal landed
+			// hang: the public entry point that did not come back (where the
+			// signal happened to land does not matter); fatal: the smallest
+			// function among the innermost frames (independent of where the
+			// stack ended)
 			parts := strings.Split(detail, " | ")
-			what, fn := "no-answer", parts[len(parts)-1]
-			if r.Outcome == "fatal" {
-				what = normMsg(strings.TrimPrefix(parts[0], "fatal error: "))
+			sigText := parts[len(parts)-1]
+			field := func(name string) string {
+				i := strings.Index(sigText, name+"=")
+				if i < 0 {
+					return "?"
+				}
+				v := sigText[i+len(name)+1:]
+				if j := strings.Index(v, " "); j > 0 {
+					v = v[:j]
+				}
+				return v
 			}
-			if a, b := strings.Index(fn, "{"), strings.Index(fn, "}"); a >= 0 && b > a {
-				fn = strings.SplitN(fn[a+1:b], ",", 2)[0]
+			if r.Outcome == "hang" {
+				// where the signal happened to land does not matter (and with
+				// iterators inlined into the caller not even the entry point is
+				// stable): the harness call that did not come back names the
+				// public entry point
+				sig = "no-answer/" + callClass(r.Call)
+			} else {
+				what := normMsg(strings.TrimPrefix(parts[0], "fatal error: "))
+				cyc := strings.Trim(field("cycle"), "{}")
+				sig = what + "/" + strings.SplitN(cyc, ",", 2)[0]
 			}
-			sig = what + "/" + fn
 		case "panic":
 			// "pkg.func: message"
 			parts := strings.SplitN(detail, ": ", 2)
@@ -227,7 +244,7 @@ func violationKey(r *Rec, clause, name string) string {
 	if i := strings.Index(cls, "/"); i > 0 {
 		cls = cls[:i]
 	}
-	return norm(clause + "/" + r.Call + "/" + cls)
+	return norm(clause + "/" + callClass(r.Call) + "/" + cls)
 }
 
 func describe(r *Rec) string {
@@ -394,7 +411,7 @@ func conclude(ctx *core.Ctx, pl *plan, pool *Pool, results map[string]*Result, r
 		return err
 	}
 	confirmPool.defaultStack = true
-	confirmPool.Watchdog = 90 * time.Second // an unbounded recursion needs a while to exhaust Go's default 1 GB stack
+	confirmPool.Watchdog = 45 * time.Second // an unbounded recursion needs about 10 s to exhaust Go's default 1 GB stack
 	for _, k := range keys {
 		ss := byKey[k]
 		confirmed := false
@@ -516,4 +533,27 @@ func confirm(ctx *core.Ctx, pool *Pool, rc *replayCase) (bool, *Rec, error) {
 		}
 	}
 	return false, nil, nil
+}
+
+// callClass is the public entry point a harness call stands for: "seq/pages"
+// (the same walk on the reader made by MakeReader) and "probe/pages" (the
+// guarded call of a wiring) are both "pages".
+func callClass(call string) string {
+	call = strings.TrimPrefix(call, "seq/")
+	if strings.HasPrefix(call, "probe/") {
+		switch w := strings.TrimPrefix(call, "probe/"); w {
+		case "length":
+			return "get"
+		case "xref":
+			return "open"
+		case "filters":
+			return "decode"
+		case "nametree", "outline", "pages", "resolve":
+			return w
+		}
+	}
+	if i := strings.Index(call, "/"); i > 0 && (strings.HasPrefix(call, "open/") || strings.HasPrefix(call, "makereader/")) {
+		return call[:i]
+	}
+	return call
 }
